@@ -444,4 +444,4 @@ ASSUME = ['Kani 0.68 / CBMC 6.11 / CaDiCaL; rustc nightly-2026-08-21 x86_64 dev 
 def main(tier, seed, keep=False):
     from .runner import run_e1
     return run_e1('C06', tier, seed, gen(tier, seed), RULE, BOUNDS, ASSUME, need_stubbing=True, lib_attrs=LIB_ATTRS,
-                  harness_timeout=300 if tier == 'quick' else 900, keep=keep, validate_stub=True)
+                  harness_timeout=600 if tier == 'quick' else 1200, keep=keep, validate_stub=True)
